@@ -354,12 +354,73 @@ func TestC20P_RollbackBehindFailedChange(t *testing.T) {
 	})
 }
 
+// TestC20P_RollbackAfterPartialApply: F-v3-rollback-after-partial-apply. The
+// process crashes between "Applied.Target := 1" and "Change.Apply :=
+// IN_PROGRESS" and the change is rolled back before it is reconciled again:
+// applyRollback has no branch for Change.Apply = PENDING with Applied.Target
+// already naming the change.
+func TestC20P_RollbackAfterPartialApply(t *testing.T) {
+	runProbe(t, fRbPartial, func() bool { return vstat.IsKnown(prop, fRbPartial) }, func(c ProbeCase, x *vstat.Ctx) error {
+		sw := switches()
+		w, err := NewWorld(x, Options{Mode: Preempt, Drawn: false, FixNilCommitted: sw.FixNilCommitted, Online: true})
+		if err != nil {
+			return err
+		}
+		defer w.Close()
+		w.S.Budget = 3000
+		w.S.AbortOnConflict = sw.AbortOnConflict
+		if err := w.S.Run(); err != nil {
+			return err
+		}
+		done := false
+		var rbErr error
+		w.S.Monitor = func(StepInfo) error {
+			if done {
+				return nil
+			}
+			t1, cfg := w.Tx(1), w.Config()
+			if t1 != nil && cfg != nil && cfg.Applied.Target == 1 && status(t1, Change, Apply) == Pending && status(t1, Change, Commit) == Complete {
+				// the configuration write of ApplyChange/Pending has happened, the
+				// status write has not: roll back and crash right here
+				done = true
+				_, rbErr = w.RollbackChange(1)
+				w.S.Crash()
+			}
+			return nil
+		}
+		if _, err := w.AppendChange(pathValues([]PV{{Path: "/a/b", Val: strVal("v1")}}, 1)); err != nil {
+			return err
+		}
+		if err := settle(w); err != nil {
+			return err
+		}
+		if rbErr != nil {
+			return rbErr
+		}
+		if w.Obs.Viol != nil {
+			return w.Obs.Viol
+		}
+		t1, cfg := w.Tx(1), w.Config()
+		if done && t1 != nil && cfg != nil && t1.Status.Phase == configapi.TransactionStatus_ROLLBACK && status(t1, Change, Apply) == Pending &&
+			cfg.Applied.Target == 1 && status(t1, Rollback, Commit) == Complete && status(t1, Rollback, Apply) == Pending {
+			x.Known(fRbPartial, "crash between Applied.Target := 1 and Change.Apply := IN_PROGRESS, then RollbackChange(1): the rollback is committed but never applied and the change's apply stays PENDING for ever: "+w.DescribeState())
+			return nil
+		}
+		if !done {
+			x.Class("probe:partial-state-not-reached")
+			return nil
+		}
+		x.Class("probe:conforming")
+		return nil
+	})
+}
+
 // TestC20P_AppliedAliasesCommitted shows what C15's finding
 // F-config-applied-aliases-committed (one Atomix map for committed and applied
 // values) does to Consistency: change 2 rewrites a path while the target is
 // away; the store then reports the applied value of change 1 as the committed one.
 func TestC20P_AppliedAliasesCommitted(t *testing.T) {
-	runProbe(t, fAlias, func() bool { return vstat.IsListed(fAlias) }, func(c ProbeCase, x *vstat.Ctx) error {
+	runProbe(t, fAlias, func() bool { return vstat.IsListed(fAlias) && AppliedAliasesCommitted() }, func(c ProbeCase, x *vstat.Ctx) error {
 		w, err := probeWorld(x, true, switches().FixNilCommitted)
 		if err != nil {
 			return err
@@ -390,5 +451,3 @@ func TestC20P_AppliedAliasesCommitted(t *testing.T) {
 		return nil
 	})
 }
-
-var _ = configapi.TransactionStatus_CHANGE
